@@ -166,7 +166,7 @@ def run_program(part, wire, build, case, rotate, deep):
                         check_emission(part, c, s, text, km)
             c02.judge(part, c, vs, sols, km, obs[1], name)
     part.outcome("SAT" if sols else "UNSAT")
-    part.add("programs", (case.get("src") or repr(case.get("native")), case.get("goal")))
+    part.add("programs", (case.get("src") or repr(case.get("native") or ("values", case.get("V"), case.get("shape"))), case.get("goal")))
 
 
 def term_builder(kind, src, goal):
@@ -549,6 +549,37 @@ def run_scale(part, n):
     part.add("programs", ("scale", n))
 
 
+# --------------------------------------------------------------- value sweep
+VALUES = [-70000, -300, -129, -128, -7, -6, -5, 255, 256, 257, 300, 70000, 2**31 + 1]
+
+
+def values_builder(V, shape):
+    """Programs whose integers live around V (outside the interpreter's small-int cache, multi-digit, negative): one key is
+    forced to V by the constraints while the others vary, so the refinement route has to compare equal values that are
+    distinct objects."""
+
+    def build():
+        from cspuz import Solver
+
+        s = Solver()
+        x = s.int_var(V - 1, V + 1)
+        b = s.bool_var()
+        y = s.int_var(V, V + 1)
+        if shape == 0:
+            s.ensure(x == V)
+            s.ensure(b.then(y == V + 1))
+        elif shape == 1:
+            s.ensure(x + 1 == y)
+            s.ensure(b == (y != V + 1))
+            s.ensure(x >= V)
+        else:
+            s.ensure(b.cond(x, y) == V)
+            s.ensure(x <= y)
+        return s, list(s.variables)
+
+    return build
+
+
 def worker(shard, part):
     what = shard[0]
     if what == "scale":
@@ -584,6 +615,14 @@ def worker(shard, part):
                 part.sample({"native": cases[hi - 1], "emitted_text": wire.calls[-1]})
         finally:
             wire.uninstall()
+    elif what == "values":
+        wire = c02.WireEnv()
+        wire.install()
+        try:
+            for k, shape in enumerate((0, 1, 2)):
+                run_program(part, wire, values_builder(shard[1], shape), {"form": "values", "V": shard[1], "shape": shape}, k + abs(shard[1]), True)
+        finally:
+            wire.uninstall()
     elif what == "replies":
         reply_cases(part, shard[1])
     elif what == "subproc":
@@ -617,6 +656,8 @@ def main(tier, seed, only=None):
     nn = len(_TERMS["native"])
     for lo in range(0, nn, 40):
         shards.append(("native", lo, min(nn, lo + 40)))
+    for V in VALUES:
+        shards.append(("values", V))
     shards.append(("replies", 2))
     shards.append(("replies", 3))
     ns = len(_TERMS["subproc"])
@@ -638,9 +679,10 @@ def main(tier, seed, only=None):
         "16) key subsets with all reply-line orders (k<=1); every captured text parsed strictly and compared with the cspuz program "
         "on all 36 assignments.  Replies: all typings of <=3 variables x all assignments over {T,F}/{-12,-1,0,7,105} x all line "
         "orders (finder), all key subsets x decided subsets x values x orders (deduction), plus UNSAT/unsat.  %d programs also "
-        "through the real subprocess pipe with the reference solver as executable.  Scale family (not exhaustive): programs with 30..300 (thorough "
+        "through the real subprocess pipe with the reference solver as executable.  Value sweep: 3 three-variable programs around each of %d "
+        "integers (negative, beyond 256, beyond 2^31) with every key subset, model choice (<= 1 deviation on the refinement route) and reply order.  Scale family (not exhaustive): programs with 30..300 (thorough "
         "1500) interleaved variables, flat operators and chains over all of them, checked on 4 assignments, and replies naming every variable."
-        % ("MIN k=2" if tier == "quick" else "RED k=2", len(_TERMS["native"]), len(_TERMS["subproc"])),
+        % ("MIN k=2" if tier == "quick" else "RED k=2", len(_TERMS["native"]), len(_TERMS["subproc"]), len(VALUES)),
     )
     run.assumptions = [
         "the external solver is replaced by mc/sugar_model.py; its grammar and the two reply formats are my transcription of "
@@ -678,7 +720,9 @@ def replay(case):
     wire = c02.WireEnv()
     wire.install()
     try:
-        if case["form"] == "term":
+        if case["form"] == "values":
+            run_program(part, wire, values_builder(case["V"], case["shape"]), {"form": "values", "V": case["V"], "shape": case["shape"]}, 0, True)
+        elif case["form"] == "term":
             run_program(part, wire, term_builder(case["kind"], case["src"], case["goal"]), {"form": "term", "kind": case["kind"], "src": case["src"], "goal": case["goal"]}, 0, True)
         else:
             run_program(part, wire, native_builder(case["native"]), {"form": "native", "native": case["native"]}, 0, True)
